@@ -62,9 +62,9 @@ def cases(draw):
         gen.add_outputs(draw, spec, prob=40, bad_bytes=False)
     # tests that touch the same interpreter state themselves
     for t in tests:
-        r = draw(st.integers(0, 13))
+        r = draw(st.integers(0, 15))
         act = {0: ['warn_filter', 'simple'], 1: ['warn_filter', 'message'], 2: ['settrace_cycle'], 3: ['chdir', '/'],
-               4: ['garbage', 'bad_repr'], 5: ['garbage', 'plain']}.get(r)
+               4: ['garbage', 'bad_repr'], 5: ['garbage', 'plain'], 6: ['warn_filter', 'rebind']}.get(r)
         if act:
             t.setdefault('acts', {}).setdefault(draw(st.sampled_from(['setUp', 'body', 'tearDown'])), []).append(act)
     if draw(st.integers(0, 5)) == 0:
